@@ -75,10 +75,20 @@ func viaCLI(files map[string]string, stdin string, args []string, collect func(d
 	}
 	if collect != nil {
 		o, err := collect(dir)
+		if err == errUseStdout {
+			return result{out: out, status: "ok"}
+		}
 		if err != nil {
 			return result{status: "err:" + err.Error()}
 		}
 		return result{out: o, status: "ok"}
 	}
 	return result{out: out, status: "ok"}
+}
+
+var errUseStdout = fmt.Errorf("use standard output")
+
+// viaCLINoFile: standard output only (for commands whose -o has another meaning)
+func viaCLINoFile(files map[string]string, args []string) result {
+	return viaCLI(files, "", args, func(string) (string, error) { return "", errUseStdout })
 }
